@@ -50,9 +50,11 @@ def F(name, filename, ctype, content):
     return dict(kind='file', name=cps(name), filename=cps(filename), ctype=cps(ctype), content=list(content))
 
 
-def case(boundary, fields, mem=102400, k=0, framing='cl', first='POST', chunks=None):
+def case(boundary, fields, mem=102400, k=0, framing='cl', first='POST', chunks=None, blk=3, with_body=False):
+    """blk: block size of the interleaved pass (every upload is read blk bytes at a time, round robin);
+    with_body: Request.body is also read from between the rounds"""
     return dict(boundary=cps(boundary), fields=fields, mem=mem, k=k, framing=framing, first=first,
-                chunks=chunks or [7])
+                chunks=chunks or [7], blk=blk, with_body=with_body)
 
 
 # ---------------------------------------------------------------- the browser-side encoder
@@ -157,6 +159,13 @@ def corpus():
         case('XyZ', [F('f', 'x', 'a/b', b'0123456789')], k=11),
         case('XyZ', [F('f', 'x', 'a/b', b'')], k=1),
         case("a'()+_,-./:=?b c", [T('a', 'v')]),
+        # several uploads read alternately in blocks (one shared source behind all windows), with and without
+        # Request.body being read in between
+        case('XyZ', [F('a', 'a.bin', 'a/b', bytes(range(200))), F('b', 'b.bin', 'a/b', bytes(range(255, 55, -1)))], blk=64),
+        case('XyZ', [F('a', 'a.bin', 'a/b', b'A' * 150), T('t', 'v'), F('a', 'b.bin', 'a/b', b'B' * 70), F('c', 'c', 'a/b', b'')],
+             blk=64, with_body=True, mem=97),
+        case('XyZ', [F('a', 'a', 'a/b', b'0123456789'), F('b', 'b', 'a/b', b'abcdefghij')], blk=1, with_body=True),
+        case('XyZ', [F('a', 'a', 'a/b', b'0123456789'), F('b', 'b', 'a/b', b'abcdefghij')], blk=0),
     ]
 
 
@@ -217,6 +226,7 @@ def gen(rng, n):
         if framing == 'chunked':
             mem = max(mem, 5)
         c = case(boundary, fields, mem=mem, k=rng.choice([0, 0, 1, 2, 5, 1000]),
+                 blk=rng.choice([0, 1, 2, 3, 7, 64, 64]), with_body=rng.random() < 0.3,
                    framing=framing, first=rng.choice(['POST', 'forms', 'files']),
                    chunks=[rng.randrange(1, 40) for _ in range(rng.randrange(1, 4))])
         assert valid(c), c
@@ -256,6 +266,22 @@ def run_impl(case):
         seen['post'] = snap(rq.POST, case['k'])
         seen['forms'] = snap(rq.forms, case['k'])
         seen['files'] = snap(rq.files, case['k'])
+        # interleaved pass: all uploads, blk bytes at a time, round robin (every window is over the same source)
+        ups = [x for v in rq.files.values() for x in (v if isinstance(v, list) else [v])]
+        blocks = [[] for _ in ups]
+        active = list(range(len(ups)))
+        rounds = 0
+        while active and rounds < 100000:
+            rounds += 1
+            for i in list(active):
+                b = ups[i].file.read(case['blk'])
+                if b:
+                    blocks[i].append(list(b))
+                else:
+                    active.remove(i)
+            if case['with_body']:
+                rq.body.read(5)
+        seen['inter'] = blocks
         return 'ok'
 
     ctype = 'multipart/form-data; boundary=' + ''.join(chr(c) for c in case['boundary'])
@@ -273,7 +299,8 @@ def run_impl(case):
     if code != 200:
         tb = env['wsgi.errors'].getvalue().strip().split('\n')
         return dict(status=code, error=tb[-1][:160] if tb and tb[-1] else '')
-    return dict(status=200, post=seen.get('post'), forms=seen.get('forms'), files=seen.get('files'))
+    return dict(status=200, post=seen.get('post'), forms=seen.get('forms'), files=seen.get('files'),
+                inter=seen.get('inter'))
 
 
 def project(obs, case):
@@ -285,7 +312,7 @@ def project(obs, case):
 # ---------------------------------------------------------------- model side
 def encode(case):
     body = encode_form(bytes(case['boundary']), case['fields'])
-    return [case['mem'], case['k']] + enc_str(case['boundary']) + enc_str(body)
+    return [case['mem'], case['k'], case['blk']] + enc_str(case['boundary']) + enc_str(body)
 
 
 def _ostr(r):
@@ -318,7 +345,8 @@ def decode(out, case):
         post = _fdict(r)
         forms = _fdict(r)
         files = _fdict(r)
-        return dict(status=200, post=post, forms=forms, files=files)
+        inter = r.list(lambda q: q.list(lambda z: z.str()))
+        return dict(status=200, post=post, forms=forms, files=files, inter=inter)
     if tag == 1:
         return dict(status=r.int())
     if tag == 2:
@@ -385,6 +413,22 @@ def oracle(case, obs):
                 if w != h:
                     return 'Request.%s differs from the submitted fields at entry %d: sent %r, read back %r' % (
                         which if which != 'post' else 'POST', i, w, h)
+    # block-wise, interleaved reads: every upload still delivers exactly its own bytes
+    sent = [bytes(f['content']) for f in fields if f['kind'] == 'file' and f['filename']]
+    inter = obs.get('inter')
+    if inter is not None and len(inter) == len(sent):
+        order = []                       # uploads in the order of Request.files (grouped by name)
+        for key, is_list, items in obs['files']:
+            for it in items:
+                if it[0] == 'f':
+                    order.append(bytes(it[3]) + bytes(it[4]))
+        for i, blocks in enumerate(inter):
+            joined = b''.join(bytes(b) for b in blocks)
+            if i < len(order) and joined != order[i]:
+                return ('upload %d read in interleaved blocks of %d gives %d bytes %r..., its content is %d bytes %r...'
+                        % (i, case['blk'], len(joined), joined[:12], len(order[i]), order[i][:12]))
+            if case['blk'] > 0 and any(len(b) != case['blk'] for b in blocks[:-1]):
+                return 'upload %d: a block other than the last is not %d bytes long' % (i, case['blk'])
     k = case['k']
     for key, is_list, items in obs['files']:
         for it in items:
@@ -446,6 +490,8 @@ def shrink(case):
         yield dict(case, mem=102400)
     if case['k']:
         yield dict(case, k=0)
+    if case.get('with_body'):
+        yield dict(case, with_body=False)
     if len(case['boundary']) > 1:
         yield dict(case, boundary=case['boundary'][:-1])
 
